@@ -7,7 +7,7 @@ Tied by `harness/c18.py` (same operation sequences on a real server).
 namespace PwVerif.Contexts
 
 inductive Op where
-  | create (i : Nat)       -- RemoteContext(i, ...): header (i, False) + pickled context
+  | create (i p : Nat)     -- RemoteContext(i, ...): header (i, False) + pickled context `p` (target and defaults)
   | delete (i : Nat)       -- header (i, False) + None
   | workerIn (i : Nat)     -- header (i, True): start a worker inside context i
 deriving Repr, DecidableEq
@@ -18,13 +18,13 @@ inductive Reply where
   | refused       -- workerIn an unknown context: the socket is closed (client constructor raises)
 deriving Repr, DecidableEq
 
-/-- `self.contexts` as (id, payload) pairs; the payload is abstract (the id itself) -/
+/-- `self.contexts` as (id, payload) pairs; the payload stands for the pickled context (its target and defaults) -/
 abbrev Table := List (Nat × Nat)
 
 def has (t : Table) (i : Nat) : Bool := t.any (·.1 == i)
 
 def step (t : Table) : Op → Table × Reply
-  | .create i => if has t i then (t, .exists) else (t ++ [(i, i)], .ok)
+  | .create i p => if has t i then (t, .exists) else (t ++ [(i, p)], .ok)
   | .delete i => (t.filter (·.1 != i), .ok)          -- `contexts.pop(i, None)`; the reply is True either way
   | .workerIn i => if has t i then (t, .ok) else (t, .refused)
 
@@ -35,10 +35,15 @@ def run : Table → List Op → Table × List Reply
     let (t'', rs) := run t' ops
     (t'', r :: rs)
 
+/-- `self.contexts[i]`: the context whose helper is handed a worker request naming `i` -/
+def serves : Table → Nat → Option Nat
+  | [], _ => none
+  | (k, p) :: t, i => if k == i then some p else serves t i
+
 /-! ### specification: a set of registered ids -/
 
 def specStep (s : Nat → Bool) : Op → (Nat → Bool) × Reply
-  | .create i => if s i then (s, .exists) else ((fun j => j == i || s j), .ok)
+  | .create i _ => if s i then (s, .exists) else ((fun j => j == i || s j), .ok)
   | .delete i => ((fun j => j != i && s j), .ok)
   | .workerIn i => if s i then (s, .ok) else (s, .refused)
 
@@ -48,5 +53,16 @@ def specRun : (Nat → Bool) → List Op → (Nat → Bool) × List Reply
     let (s', r) := specStep s op
     let (s'', rs) := specRun s' ops
     (s'', r :: rs)
+
+/-! ### specification of what a worker request is served with: a dictionary id -> context -/
+
+def specServe (d : Nat → Option Nat) : Op → (Nat → Option Nat)
+  | .create i p => if (d i).isSome then d else fun j => if j == i then some p else d j
+  | .delete i => fun j => if j == i then none else d j
+  | .workerIn _ => d
+
+def specServeRun : (Nat → Option Nat) → List Op → (Nat → Option Nat)
+  | d, [] => d
+  | d, op :: ops => specServeRun (specServe d op) ops
 
 end PwVerif.Contexts
